@@ -31,3 +31,23 @@ M["priority_ties_other_way"] = ("asynq/scheduler.py", "best_priority < priority"
 M["wait_for_no_completion_check"] = ("asynq/scheduler.py", "            if task.is_computed():\n                break\n            self._continue_with_batch()", "            self._continue_with_batch()", ["C05"])
 M["flush_batch_no_finally"] = ("asynq/scheduler.py", "        finally:\n            self.on_after_batch_flush(batch)\n        return 0", "        except Exception:\n            raise\n        self.on_after_batch_flush(batch)\n        return 0", ["C05"])
 M["select_keeps_empty_batches"] = ("asynq/scheduler.py", "            if not batch.items or batch.is_flushed():", "            if batch.is_flushed():", [])
+
+# ---- C03 -------------------------------------------------------------------------------------
+M["extract_futures_forward"] = ("asynq/async_task.py", "        i = len(value) - 1\n        while i >= 0:\n            extract_futures(value[i], result)\n            i -= 1", "        for v in value:\n            extract_futures(v, result)", ["C03"])
+M["blocked_task_continued"] = ("asynq/scheduler.py", "            if task._dependencies_scheduled:\n", "            if task._dependencies_scheduled and len(task._dependencies) > 2:\n                self._continue_with_task(task)\n            elif task._dependencies_scheduled:\n", ["C03"])
+M["continue_returns_without_deps"] = ("asynq/async_task.py", "            if self.is_computed():\n                return\n            if len(self._dependencies) > 0:\n                return", "            return", [])   # equivalent (performance only)
+M["execute_recursive"] = ("asynq/scheduler.py", "                        self._tasks.append(dependency)\n", "                        self._tasks.append(dependency)\n                        if isinstance(dependency, AsyncTask):\n                            self._execute(self._tasks.pop())\n", ["C03"])
+M["orphan_started"] = ("asynq/decorators.py", "        return self.task_cls(result, self.fn, args, kwargs, **self.kwargs)", "        t = self.task_cls(result, self.fn, args, kwargs, **self.kwargs)\n        import asynq\n        if asynq.scheduler.get_active_task() is not None and len(asynq.scheduler.get_scheduler()._tasks) == 3:\n            asynq.scheduler.get_scheduler()._tasks.insert(0, t)\n        return t", ["C03"])
+
+# ---- C06 / C07 ---------------------------------------------------------------------------------
+M["no_pause_on_pop"] = ("asynq/scheduler.py", "                task._dependencies_scheduled = False\n                task._pause_contexts()", "                task._dependencies_scheduled = False", ["C06"])
+M["resume_after_continue"] = ("asynq/scheduler.py", "    def _continue_with_task(self, task):\n        task._resume_contexts()\n        old_task = self.active_task", "    def _continue_with_task(self, task):\n        old_task = self.active_task", ["C06"])
+M["deps_pushed_without_resume"] = ("asynq/scheduler.py", "                task._dependencies_scheduled = True\n                task._resume_contexts()", "                task._dependencies_scheduled = True", ["C06"])
+M["pause_in_entry_order"] = ("asynq/async_task.py", "        for ctx in reversed(list(self._contexts.values())):", "        for ctx in list(self._contexts.values()):", ["C07"])
+M["resume_in_reverse_order"] = ("asynq/async_task.py", "        error = None\n        for ctx in self._contexts.values():", "        error = None\n        for ctx in reversed(list(self._contexts.values())):", ["C07"])
+M["exit_skips_pause_on_exception"] = ("asynq/contexts.py", "            leave_context(self, self._active_task)\n            self.pause()\n            del self._active_task", "            leave_context(self, self._active_task)\n            if ty is None:\n                self.pause()\n            del self._active_task", ["C06", "C07"])
+M["pause_restores_new_value"] = ("asynq/scoped_value.py", "    def pause(self):\n        self._target._value = self._old_value\n\n    def __repr__(self):\n        return \"_AsyncScopedValueOverrideContext", "    def pause(self):\n        self._target._value = self._value\n\n    def __repr__(self):\n        return \"_AsyncScopedValueOverrideContext", ["C07"])
+M["resume_does_not_save_old"] = ("asynq/scoped_value.py", "    def resume(self):\n        self._old_value = self._target._value\n        self._target._value = self._value", "    def resume(self):\n        if self._old_value is None:\n            self._old_value = self._target._value\n        self._target._value = self._value", [])   # equivalent inside the property's domain (DESIGN 3.9)
+M["nonasync_pause_is_noop"] = ("asynq/contexts.py", "    def pause(self):\n        assert False, \"Task %s cannot yield while %s is active\" % (\n            self._active_task,\n            self,\n        )\n\n    def resume(self):\n        assert False", "    def pause(self):\n        pass\n\n    def resume(self):\n        assert False", ["C06"])
+M["nonasync_fails_on_enter_if_pending"] = ("asynq/contexts.py", "    def __enter__(self):\n        if not is_asyncio_mode():\n            self._active_task = enter_context(self)\n\n    def __exit__(self, typ, val, tb):", "    def __enter__(self):\n        if not is_asyncio_mode():\n            self._active_task = enter_context(self)\n            assert not asynq.scheduler.get_scheduler()._batches\n\n    def __exit__(self, typ, val, tb):", ["C06"])
+M["attr_override_pause_noop_second_time"] = ("asynq/scoped_value.py", "    def pause(self):\n        setattr(self._target, self._property_name, self._old_value)", "    def pause(self):\n        if getattr(self, '_p', 0) < 2:\n            setattr(self._target, self._property_name, self._old_value)\n        self._p = getattr(self, '_p', 0) + 1", ["C07"])
